@@ -264,6 +264,20 @@ int main() {
 """)
 
 
+# docs/reference/quantity.md: a unitless Quantity converts implicitly to its Rep.  The conversion
+# is a conversion function *template*, which g++ does not consider for the operands of built-in
+# operators.  (An open known finding: in a program of its own, like the two above.)
+_p("unitless_compound_assignment", r"""
+int main() {
+    double x = 1.0;
+    x += make_quantity<UnitProductT<>>(2.5);
+    const double y = make_quantity<UnitProductT<>>(4.0);
+    std::printf("%.17g %.17g\n", x, y);
+    return 0;
+}
+""")
+
+
 def names():
     return sorted(PROGRAMS)
 
